@@ -8,7 +8,7 @@ package routine
 // runningRoutine record that belongs to it (record.r names the container). An "instance" is one execute
 // goroutine; it is identified by its exitedCh (made in start). Ghost history:
 //   xowner(ch)  the container for which instance ch was started            (set once)
-//   pred(ch)    the channel instance ch waits for before entering the managed function (set once)
+//   pred(ch)    the channel instance ch waits for before entering the managed function (written by the holder of xrun(ch) only)
 //   ictx(ch)    the context given to instance ch; chof(ctx) its inverse     (set once)
 //   xrun(ch)    the goroutine executing instance ch (owned; handed over at the go statement, given up at close)
 //   xfin(ch)    the same goroutine until it has recorded the exit in the record (owned); xdone(ch): it has (monotone)
@@ -19,13 +19,14 @@ package routine
 //   callback 1 in execute: the managed function is entered only after the predecessor channel was closed
 //   go 1 in start: every new instance is given the exitedCh of the most recently started instance as its
 //       predecessor (or that instance has already exited)
-//   H2/H3  the current record carries the head of the chain: its exitedCh is lastCh, or lastCh is closed
+//   H2/H3  the head of the chain is never lost: the current record's exitedCh is lastCh (also while the record
+//       has not been started yet), without a record prevExitedCh is, or lastCh is closed
 // By induction along pred, closed(ch) implies that the instance ch and every instance started before it
 // have returned; an instance enters the function only after closed(pred), every later instance waits for
 // a channel that is still open while it runs: never two at once.
 //
 //@ ghostmap xowner: ref -> ref once
-//@ ghostmap pred: ref -> ref once
+//@ ghostmap pred: ref -> ref by xrun
 //@ ghostmap ictx: ref -> ref once
 //@ ghostmap xrun: ref -> ref owned
 //@ ghostmap chof: ref -> ref once
@@ -35,7 +36,7 @@ package routine
 //@ object RoutineContainer
 //@   props C04 C05 C14 C13
 //@   lock bcast.mtx
-//@   guarded ctx, routine, runningRoutine.ctx, runningRoutine.ctxCancel, runningRoutine.exitedCh, runningRoutine.err, runningRoutine.success, runningRoutine.exited, runningRoutine.deferRetry, StateRoutineContainer.s, StateRoutineContainer.stateRoutine
+//@   guarded ctx, routine, prevExitedCh, runningRoutine.ctx, runningRoutine.ctxCancel, runningRoutine.exitedCh, runningRoutine.err, runningRoutine.success, runningRoutine.exited, runningRoutine.deferRetry, StateRoutineContainer.s, StateRoutineContainer.stateRoutine
 //@   immutable exitedCbs, retryBo, runningRoutine.r, runningRoutine.routine, StateRoutineContainer.rc, StateRoutineContainer.compare
 //@   records runningRoutine via r
 //@   records StateRoutineContainer via rc
@@ -44,7 +45,7 @@ package routine
 //@   inv H2: this.routine != nil ==> this.routine.r == this && this.routine.routine != nil && (this.routine.exitedCh == this.lastCh || (this.routine.exitedCh == nil && (this.lastCh == nil || closed(this.lastCh))))
 //@   inv R1: forall rr: *runningRoutine {rr.r} :: rr.r == this && rr.ctx != nil && !rr.exited ==> rr.exitedCh != nil && chof(rr.ctx) == rr.exitedCh && xowner(rr.exitedCh) == this
 //@   inv R2: forall rr: *runningRoutine {rr.r} :: rr.r == this && rr.ctx != nil && rr.exited ==> chof(rr.ctx) != nil && xdone(chof(rr.ctx))
-//@   inv H3: this.routine == nil ==> this.lastCh == nil || closed(this.lastCh)
+//@   inv H3: this.routine == nil ==> this.prevExitedCh == this.lastCh || (this.prevExitedCh == nil && (this.lastCh == nil || closed(this.lastCh)))
 //
 //@ ginv E0: forall ch: ref {xowner(ch)} :: xowner(ch) != nil ==> ch != nil && allocated(ch) && madein(ch, "(*runningRoutine).start")
 //@ ginv E1: forall ch: ref {xowner(ch)} :: xowner(ch) != nil && closed(ch) ==> xrun(ch) == nil && (pred(ch) != nil ==> closed(pred(ch)))
@@ -71,6 +72,7 @@ package routine
 //@   requires current: r.r.routine == r
 //@   requires chain: waitCh == r.r.lastCh || r.r.lastCh == nil || closed(r.r.lastCh)
 //@   ghost go 1: xowner(exitedCh) := r.r
+//@   ghost go 1: xrun(exitedCh) := me
 //@   ghost go 1: pred(exitedCh) := waitCh
 //@   ghost go 1: ictx(exitedCh) := r.ctx
 //@   ghost go 1: xrun(exitedCh) := child
@@ -185,7 +187,6 @@ package routine
 //
 //@ func (*StateRoutineContainer).setStateLocked
 //@   props C04 C05
-//@   inline
 //@   opt holds = rc.bcast.mtx
 //@   opt frame = skip
 //@   opt pure-callbacks = compare
